@@ -42,11 +42,14 @@ def judge(case, obs, res):
     if scen.harness_failed(obs):
         res.inconclusive.append(f"executor failure: {str(obs)[:200]}")
         return None
-    r = obs["runs"][0]
-    ok = r["v"] == "ok"
+    oks = [x for x in obs["runs"] if x["v"] == "ok"]
+    r = oks[0] if oks else obs["runs"][0]
+    ok = bool(oks)
     if ok and m["expect"] == "reject":
-        res.violate(f"accept:{m['mode']}", f"verification succeeded although a delegated sub-layout at depth {m['depth']} "
-                    f"must fail: {m['mode']}", case, obs, "reject")
+        res.violate(f"accept:{m['mode']}", f"{len(oks)}/{len(obs['runs'])} verifications succeeded although a delegated sub-layout "
+                    f"at depth {m['depth']} must fail: {m['mode']}", case, obs, "reject")
+    if m["expect"] == "accept" and 0 < len(oks) < len(obs["runs"]):
+        res.inconclusive.append(f"positive control accepted only {len(oks)}/{len(obs['runs'])} times ({m['mode']})")
     if (not ok) and m["expect"] == "accept":
         if m["mode"] == "parent_requires_summary_product":
             res.violate("summary-evidence-missing", "a parent REQUIRE of the delegated step's last product fails: the "
@@ -54,13 +57,84 @@ def judge(case, obs, res):
         else:
             res.inconclusive.append(f"positive control rejected ({m['mode']}): {r.get('e')}")
     if ok and m["expect"] == "accept":
-        sg = r["summary"]["signed"]
+        sg = next(x["summary"] for x in obs["runs"] if x["v"] == "ok" and x["summary"] != "=")["signed"]
         exp = m["summary"]
         for f in ("name", "materials", "products", "command", "byproducts"):
             if norm(sg.get(f)) != norm(exp[f]):
                 res.violate(f"summary-differs:{f}", f"returned summary link field '{f}' is {norm(sg.get(f))[:200]}, "
                             f"expected {norm(exp[f])[:200]}", case, obs, exp)
     return ok
+
+
+MULTI_VARIANTS = ["all_good", "all_good", "dir_missing", "dir_empty", "inner_link_unauth", "inner_link_corrupt", "inner_link_other_artifacts",
+                  "inner_link_in_wrong_dir"]
+
+
+def multi_delegation(rng, W):
+    """a threshold-2 step whose two functionaries both delegate to the SAME sub-layout content (co-signed, or signed
+    separately); every filing must be verified against its own sub-directory"""
+    a, b = rng.sample(["ed4", "ed5", "ed6", "edp2"], 2)
+    x = rng.choice(["ec-b", "ed1"])
+    inner_step = scen.mk_step("compile", 1, [W.kid(x)], [], [["ALLOW", "*"]], [["ALLOW", "*"]])
+    inner = scen.mk_layout(W, [x], [inner_step], [])
+    parent = scen.mk_layout(W, [a, b], [scen.mk_step("build", 2, [W.kid(a), W.kid(b)], [], [["ALLOW", "*"]], [["ALLOW", "*"]])], [])
+    cosigned = rng.random() < 0.5
+    variant = rng.choice(MULTI_VARIANTS)
+    bad = rng.choice([a, b])      # whose sub-directory is defective
+    reqs = [(parent, ["ed0"], "new")]
+    if cosigned:
+        reqs.append((inner, [a, b], "builder"))
+    else:
+        reqs.append((inner, [a], "new"))
+        reqs.append((inner, [b], "new"))
+    good_link = pipeline.leaf_link("compile", 0)
+    other_link = pipeline.leaf_link("compile", 0)
+    other_link["products"]["out/o0"] = scen.digest(0x55)
+    reqs.append((good_link, [x], "new"))
+    reqs.append((good_link, ["ed7"], "new"))      # unauthorised signer
+    reqs.append((other_link, [x], "new"))
+    return {"a": a, "b": b, "x": x, "cosigned": cosigned, "variant": variant, "bad": bad, "reqs": reqs, "good_link": good_link}
+
+
+def multi_case(W, sc, wires, base):
+    a, b, x = sc["a"], sc["b"], sc["x"]
+    i = base + 1
+    if sc["cosigned"]:
+        subs = {a: wires[i], b: wires[i]}
+        i += 1
+    else:
+        subs = {a: wires[i], b: wires[i + 1]}
+        i += 2
+    good, unauth, other = wires[i], wires[i + 1], wires[i + 2]
+    files = {}
+    for k in (a, b):
+        files[f"build.{W.pfx(k)}.link"] = scen.dumps(subs[k])
+        d = f"build.{W.pfx(k)}/"
+        v = sc["variant"] if k == sc["bad"] else "all_good"
+        if v == "all_good":
+            files[d + f"compile.{W.pfx(x)}.link"] = scen.dumps(good)
+        elif v == "dir_missing":
+            pass
+        elif v == "dir_empty":
+            files[d + "placeholder"] = {"dir": True}
+        elif v == "inner_link_unauth":
+            files[d + f"compile.{W.pfx('ed7')}.link"] = scen.dumps(unauth)
+        elif v == "inner_link_corrupt":
+            w = copy.deepcopy(good)
+            bts = bytearray(bytes.fromhex(w["signatures"][0]["sig"]))
+            bts[1] ^= 0x40
+            w["signatures"][0]["sig"] = bytes(bts).hex()
+            files[d + f"compile.{W.pfx(x)}.link"] = scen.dumps(w)
+        elif v == "inner_link_other_artifacts":
+            files[d + f"compile.{W.pfx(x)}.link"] = scen.dumps(other)
+        elif v == "inner_link_in_wrong_dir":
+            files[f"build.{W.pfx('ed7')}/compile.{W.pfx(x)}.link"] = scen.dumps(good)
+    gl = sc["good_link"]
+    summary = {"name": "", "materials": gl["materials"], "products": gl["products"], "command": gl["command"], "byproducts": gl["byproducts"]}
+    expect = "accept" if sc["variant"] == "all_good" else "reject"
+    meta = {"mode": "multi_delegation:" + sc["variant"], "expect": expect, "depth": 1, "tree_depth": 1, "summary": summary,
+            "cosigned": sc["cosigned"]}
+    return scen.verify_case(wires[base], [[W.kid("ed0"), W.pub("ed0")]], files, reps=8, meta=meta)
 
 
 def shard(binpath, seed, sh, n):
@@ -149,8 +223,14 @@ def shard(binpath, seed, sh, n):
         sc["base"] = len(reqs)
         pipeline.collect_requests(node, reqs)
         scs.append(sc)
+    multis = []
+    for i in range(max(4, n // 4)):
+        msc = multi_delegation(rng, W)
+        msc["base"] = len(reqs)
+        reqs.extend(msc["reqs"])
+        multis.append(msc)
     wires = scen.sign_all(binpath, reqs, nproc=1)
-    cases = []
+    cases = [multi_case(W, msc, wires, msc["base"]) for msc in multis]
     for sc in scs:
         node, tamper = sc["node"], sc["tamper"]
 
@@ -243,5 +323,6 @@ def main(ctx):
                   "positive_at_tree_depth:3", "mode:wrong_signer", "mode:unauth_key", "mode:inner_expired",
                   "mode:inner_link_missing", "mode:links_in_parent_dir", "mode:links_in_other_key_dir",
                   "mode:parent_disallows_summary_product", "mode:parent_requires_summary_product", "mode:inner_rule_fail",
+                  "mode:multi_delegation:all_good", "mode:multi_delegation:dir_missing", "mode:multi_delegation:inner_link_unauth",
                   "depth:2", "rejected"],
         min_evals=400)
